@@ -126,10 +126,32 @@ func c02StageRun(c *Ctx, idx int, rng *rand.Rand, sc *c02sScenario, dir string) 
 	}
 	nsteps := 4 + rng.Intn(9)
 	sawFailed := false
+	// half of the histories follow a template with PRNG parameters - an old delivery
+	// that the running instance no longer remembers, then a damaged new version,
+	// then something that makes the receiver read its log further back - the other
+	// half are free sequences of the same steps
+	var script []int
+	if rng.Intn(2) == 0 {
+		script = []int{0, 8, 7, 3, 9 + rng.Intn(3)} // intact, long sleep, restart, damaged, extend
+		if rng.Intn(2) == 0 {
+			script = []int{0, 8, 3, 9 + rng.Intn(3)} // without restart: only ageing (possible when the cache was built late)
+		}
+		if rng.Intn(3) == 0 {
+			script = append(script, 9+rng.Intn(3), 6)
+		}
+		nsteps = len(script)
+	}
 	for s := 0; s < nsteps; s++ {
 		ni := rng.Intn(len(names))
+		if script != nil {
+			ni = 0
+		}
 		var st c02sStep
-		switch r := rng.Intn(12); {
+		r := rng.Intn(12)
+		if script != nil {
+			r = script[s]
+		}
+		switch {
 		case r < 3:
 			st = c02sStep{Op: "version-intact", Name: ni}
 			sendVersion(ni, false, false)
@@ -148,6 +170,9 @@ func c02StageRun(c *Ctx, idx int, rng *rand.Rand, sc *c02sScenario, dir string) 
 			last = map[int]*verdict{} // a new instance knows only the log and the staging area
 		case r < 9:
 			h := []int{1, 25, 49}[rng.Intn(3)]
+			if script != nil {
+				h = []int{30, 49, 100}[rng.Intn(3)]
+			}
 			st = c02sStep{Op: "sleep", Hours: h}
 			time.Sleep(time.Duration(h) * time.Hour)
 			rs.restamp()
